@@ -5,6 +5,7 @@ package main
 // unsigned machine operations are `mod 2^N` — applied by the executor, not here.
 
 import (
+	"os"
 	"fmt"
 	"math/big"
 	"sort"
@@ -680,7 +681,63 @@ func (p *smtPrinter) strNoShare(t *Term) string {
 
 // RenderVC prints hypotheses and the negated goal as a complete SMT-LIB script.
 // goal == nil: satisfiability of the hypotheses (cover obligations).
+// skolemizeGoal: a universally quantified goal is proved for fresh constants, and every
+// single-variable universal hypothesis is additionally instantiated at those constants (the
+// instances the solvers' trigger-based instantiation most often fails to find: index terms with
+// arithmetic in them).  Purely a presentation of the same validity problem.
+func skolemizeGoal(hyps []*Term, goal *Term) ([]*Term, *Term) {
+	var sks []*Term
+	out := hyps
+	for depth := 0; depth < 3; depth++ {
+		if goal.Op == "forall" {
+			m := map[*Term]*Term{}
+			for _, n := range strings.Split(goal.Name, ",") {
+				sk := Var("sk$"+n, SInt)
+				m[Bound(n, SInt)] = sk
+				sks = append(sks, sk)
+			}
+			goal = Subst(goal.Args[0], m)
+			continue
+		}
+		if goal.Op == "=>" && len(sks) > 0 {
+			out = append(append([]*Term(nil), out...), goal.Args[0])
+			goal = goal.Args[1]
+			continue
+		}
+		break
+	}
+	if len(sks) == 0 || len(sks) > 2 {
+		return out, goal
+	}
+	var inst []*Term
+	var visit func(h *Term)
+	visit = func(h *Term) {
+		switch h.Op {
+		case "and":
+			for _, a := range h.Args {
+				visit(a)
+			}
+		case "forall":
+			if !strings.Contains(h.Name, ",") {
+				for _, sk := range sks {
+					inst = append(inst, Subst(h.Args[0], map[*Term]*Term{Bound(h.Name, SInt): sk}))
+				}
+			}
+		}
+	}
+	for _, h := range out {
+		visit(h)
+	}
+	if len(inst) > 400 {
+		inst = inst[:400]
+	}
+	return append(append([]*Term(nil), out...), inst...), goal
+}
+
 func RenderVC(hyps []*Term, goal *Term, wantModel bool) string {
+	if goal != nil && os.Getenv("GOVC_NO_SKOLEM") == "" {
+		hyps, goal = skolemizeGoal(hyps, goal)
+	}
 	p := newPrinter()
 	all := append([]*Term(nil), hyps...)
 	if goal != nil {
